@@ -314,6 +314,8 @@ class Interp:
                 return bool(v)
             if rooted_at_caught_value(v):
                 return True  # the message of a violated rule is a non-empty string
+            if isinstance(v, tuple) and len(v) == 3 and v[0] == "joined":
+                return any(v[2]) or (len(v[2]) > 1 and bool(v[1]))  # the joined string is not empty
             if isinstance(v, tuple) and v and v[0] in ("tok", "attr", "index", "result", "valof", "caught", "elt", "attrval"):
                 return self.oracle("truthy", v)
             return bool(v)
